@@ -107,7 +107,7 @@ GOOD = [
     ("chr1:D,DDD,DDD-DGb", "chr1", 7, "", 0, 1, "Gb", 0),
 ]
 BAD = ["chr1:DD", ":D-D", "chr1:-D-D", "chr1:D--D", "chr1:D-x", "chr1:x-D", "chr1:Dq-DDq", "chr1:D-DDz", "chr1::DD-DD", "chr1:$DD-DD",
-       "  :D-D", "chr1:DkDa-DDkDa", "chr1:DD DD-DDD"]
+       "  :D-D", "chr1:DkDa-DDkDa", "chr1:DD DD-DDD", "chr1:", " chr1 :", "chr1: ", "chr1:-", "chr1:DD-DD:"]
 
 
 def region_sym(p):
@@ -403,7 +403,7 @@ CHECKS = [
           timeout=1800, path_timeout=900),
     Check("region_grammar", lambda tier: [dict(kind="good", idx=i) for i in range(len(GOOD))] + [dict(kind="bad", idx=i) for i in range(len(BAD))],
           region_sym, region_real, labels=("reversed",),
-          doc="parse_region_string executed from source on a grammar of shapes (11 well-formed, 13 malformed), all digits symbolic",
+          doc="parse_region_string executed from source on a grammar of shapes (11 well-formed, 18 malformed), all digits symbolic",
           bounds=dict(shapes="finite list printed in the harness (GOOD/BAD); every numeral of each shape"),
           outside=("strings outside the listed shapes (matching a regex against a fully symbolic string is outside every engine here)",)),
     Check("roundtrip", lambda tier: [dict(name=nm, ns=a, ne=b, commas=c) for nm in ("chr1", "a-b") for a, b in ([(1, 1), (3, 4), (4, 7)] if tier == "quick" else [(1, 1), (3, 4), (4, 7), (7, 9), (10, 10)])
